@@ -10,7 +10,7 @@ Open Scope list_scope.
 
 Lemma label_to_cmp : forall k l r, label (to_cmp k l r) = l.
 Proof.
-  intros k l [i p]. unfold to_cmp. simpl.
+  intros k l [i p]. unfold to_cmp. simpl. destruct (p_bad p); [reflexivity|].
   destruct (p_pb p && k); [destruct (p_xraise p)|]; reflexivity.
 Qed.
 
@@ -218,7 +218,7 @@ Definition fate (c : cfg) (b : behaviour) : option msg :=
 Definition single (c : cfg) (x : rid * behaviour) : cmp :=
   match fate c (snd x) with
   | Some m => failure_cmp (fst x) m
-  | None => to_cmp (keep c) (fst x) (fst x, play (snd x))
+  | None => to_cmp (keep c) (fst x) (fst x, answer_of (snd x))
   end.
 
 (** modelled seconds spent on one recording *)
@@ -419,7 +419,7 @@ Ltac start_step Hd :=
 
 Lemma step_answer : forall c l b ev sv o a clk ps,
   oldok c o -> S (length sv) = a -> a <= maxr c ->
-  wact_of (Task l b false) = AAnswer (l, play b) -> fate c b = None -> cost c b = 0 -> cleanb b = true ->
+  wact_of (Task l b false) = AAnswer (l, answer_of b) -> fate c b = None -> cost c b = 0 -> cleanb b = true ->
   exists s', step_of c (l, b) (readyst ev sv o a clk ps) = IYield (single c (l, b)) s' /\ post c l b sv o clk s'.
 Proof.
   intros c l b ev sv o a clk ps Ho Ha Hm Hw Hf Hc Hcl. pose proof (oldok_dead _ _ Ho) as Hd.
@@ -583,6 +583,7 @@ Proof.
     + apply step_slow; auto.
   - apply (step_stuck c l BDrops ev sv o a clk ps WIdle None); auto.
   - destruct Hcl as [Hcl|Hcl]; [discriminate|]. apply step_dies_before; auto.
+  - apply step_answer; auto.
 Qed.
 
 (** * Part C - whole runs *)
@@ -680,7 +681,7 @@ Qed.
     attached to any verdict is the labelled recording's own (or none) *)
 Definition is_fault (c : cfg) (b : behaviour) : bool :=
   match b with
-  | BPlayerRaises | BExtractorRaises | BComparatorRaises => true
+  | BPlayerRaises | BExtractorRaises | BComparatorRaises | BBadAnswer _ => true
   | _ => match fate c b with Some _ => true | None => false end
   end.
 
@@ -697,21 +698,24 @@ Lemma single_attribution : forall c l b,
   label (single c (l, b)) = l /\ (attached (single c (l, b)) = None \/ attached (single c (l, b)) = Some l).
 Proof.
   intros c l b. unfold single. simpl. destruct (fate c b); [split; [reflexivity|left; reflexivity]|].
-  split; [apply label_to_cmp|]. unfold to_cmp. simpl.
-  destruct (p_pb (play b)); destruct (keep c); simpl; try destruct (p_xraise (play b)); simpl; auto.
+  split; [apply label_to_cmp|]. unfold to_cmp. simpl. destruct (p_bad (answer_of b)); [left; reflexivity|].
+  destruct (p_pb (answer_of b)); destruct (keep c); simpl; try destruct (p_xraise (answer_of b)); simpl; auto.
 Qed.
 
 Lemma honest_verdict : forall c l b, fate c b = None ->
   verdict (single c (l, b)) = p_status (play b) \/ verdict (single c (l, b)) = EqualizerFailure.
 Proof.
   intros c l b F. unfold single. simpl. rewrite F. unfold to_cmp. simpl.
-  destruct (p_pb (play b) && keep c); [destruct (p_xraise (play b))|]; auto.
+  destruct (p_bad (answer_of b)) eqn:B; [right; reflexivity|].
+  assert (E : answer_of b = play b) by (destruct b; try reflexivity; simpl in B; discriminate).
+  rewrite E. destruct (p_pb (play b) && keep c); [destruct (p_xraise (play b))|]; auto.
 Qed.
 
 (** ** C08: in-process and dedicated mode agree *)
 
 Definition neutral (c : cfg) (b : behaviour) : bool :=
-  cleanb b && match fate c b with None => true | Some _ => false end.
+  cleanb b && (match fate c b with None => true | Some _ => false end
+               && match b with BBadAnswer _ => false | _ => true end).
 
 Lemma inproc_neutral : forall c s, forallb (fun x => neutral c (snd x)) s = true ->
   run_inproc (keep c) s = (map (single c) s, Completed).
@@ -719,8 +723,9 @@ Proof.
   intros c s. induction s as [|[l b] s IH]; intros H; simpl in *; [reflexivity|].
   apply andb_prop in H. destruct H as [H1 H2]. rewrite (IH H2).
   unfold neutral in H1. apply andb_prop in H1. destruct H1 as [H1 H3].
+  apply andb_prop in H3. destruct H3 as [H3 H4].
   unfold single. simpl. destruct (fate c b) eqn:F; [discriminate|].
-  destruct b; simpl in F; try discriminate; reflexivity.
+  destruct b; simpl in F, H4; try discriminate; reflexivity.
 Qed.
 
 Lemma neutral_clean : forall c s, forallb (fun x => neutral c (snd x)) s = true -> clean_script s.
@@ -931,6 +936,20 @@ Proof. split; vm_compute; reflexivity. Qed.
 
 Definition demo_neutral : list (rid * behaviour) :=
   [(1, BEqual); (2, BExtractorRaises); (3, BSlow 2); (4, BBare Failed); (5, BComparatorRaises); (6, BDifferent)].
+
+(** answers the parent cannot use: each one is a framework failure of its own recording, the worker that gave it
+    stays and has aged by one - at rate 2 the third recording is served by a second worker *)
+Definition demo_bad : list (rid * behaviour) :=
+  [(1, BBadAnswer Unloadable); (2, BBadAnswer Refused); (3, BEqual); (4, BBadAnswer Unloadable)].
+
+Lemma demo_bad_run :
+  clean_script demo_bad /\
+  fst (run_dedicated demo_cfg demo_bad) = (map (single demo_cfg) demo_bad, Completed) /\
+  map (fun v => (verdict v, message v)) (map (single demo_cfg) demo_bad) =
+    [(EqualizerFailure, MUnload); (EqualizerFailure, MRefused); (Equal, MCmp); (EqualizerFailure, MUnload)] /\
+  map (fun w => w_served w) (workers (state_after demo_cfg demo_bad)) = [[3; 4]; [1; 2]] /\
+  fst (run_inproc (keep demo_cfg) demo_bad) = map (fun x => single demo_cfg (fst x, BEqual)) demo_bad.
+Proof. repeat split; vm_compute; reflexivity. Qed.
 
 Lemma demo_neutral_ok : forallb (fun x => neutral demo_cfg (snd x)) demo_neutral = true.
 Proof. reflexivity. Qed.
